@@ -102,7 +102,7 @@ def judge(site, est, basis, w, triplets, draws, beta, gamma, output_iter, batch_
     if margin < 1e-9 or gap < 1e-12:
         return True, active > 0
     dev = np.abs(w - bw).max() / max(np.abs(bw).max(), 1e-300) if bw is not None and len(bw) == len(w) else np.inf
-    if dev > 1e-8:
+    if not dev <= 1e-8:
         # which checkpoint (if any) do the returned weights correspond to?
         which = [it for it, o, cw in cps if len(cw) == len(w) and np.abs(cw - w).max() <= 1e-8 * max(np.abs(cw).max(), 1e-300)]
         viol.append(V(site, 'weights_not_documented_scheme', 'returned weights differ from the replay of the dual-averaging scheme at its best '
@@ -223,7 +223,7 @@ def run_case(spec):
                         else:
                             dev = max(np.abs(np.outer(b, b) - np.outer(r, r)).max() for b, r in zip(basis, Bref))
                             worst_lda = max(worst_lda, dev / 1e-7)
-                            if dev > 1e-7:
+                            if not dev <= 1e-7:
                                 viol.append(V(name + '.fit', 'lda_basis_not_documented', "basis='lda', n_basis=%d, random_state=%d: a generated row differs "
                                               'from the unit LDA direction of the documented local sample (projector deviation %.3g)' % (nb, seed, dev),
                                               ['lda', 'n_basis=%d' % nb]))
